@@ -31,8 +31,8 @@ MANIFEST = {
     "note": "Corpus plans x all coordinates; deterministic loop-driven fakes.",
     "design_ref": "3 (C03)",
 }
-PLANS_Q = ["scan", "count", "two_runs", "nested", "custom", "mixed"]
-PLANS_T = PLANS_Q + ["grid", "list_scan", "rel_scan", "neverclose", "custom_mon"]
+PLANS_Q = ["scan", "count", "two_runs", "nested", "custom", "mixed", "keys_sparse"]
+PLANS_T = PLANS_Q + ["keys_sparse2", "grid", "list_scan", "rel_scan", "neverclose", "custom_mon"]
 SHARD_TIMEOUT = {"quick": 900, "thorough": 3600}
 worker_init = sweepcheck.worker_init
 
